@@ -559,6 +559,35 @@ fn exec_inner<V: VirtualFileSystem>(v: &V, hs: &mut Handles, op: &Op) -> Outcome
         Op::Macro { name, a, b, mode, d } => run_macro(v, name, a, b, *mode, d),
         Op::Expand { p } => r(sys::expand(p), |x| Val::Path(ps(&x))),
         Op::UserDir { which } => user_dir(which),
+        Op::PathFn { f, a, b } => {
+            let pa = PathBuf::from(a);
+            let pb = PathBuf::from(b);
+            // only totality is judged: every helper must return, whatever the text
+            let text: String = match f.as_str() {
+                "trim_prefix" => ps(&pa.trim_prefix(&pb)),
+                "trim_suffix" => ps(&pa.trim_suffix(&pb)),
+                "trim_ext" => format!("{:?}", pa.trim_ext().map(|x| ps(&x)).map_err(|e| err_kind(&e))),
+                "trim_first" => ps(&pa.trim_first()),
+                "trim_last" => ps(&pa.trim_last()),
+                "trim_protocol" => ps(&pa.trim_protocol()),
+                "mash" => ps(&pa.mash(&pb)),
+                "relative" => format!("{:?}", pa.relative(&pb).map(|x| ps(&x)).map_err(|e| err_kind(&e))),
+                "clean" => ps(&pa.clean()),
+                "expand" => format!("{:?}", pa.expand().map(|x| ps(&x)).map_err(|e| err_kind(&e))),
+                "base" => format!("{:?}", pa.base().map_err(|e| err_kind(&e))),
+                "dir" => format!("{:?}", pa.dir().map(|x| ps(&x)).map_err(|e| err_kind(&e))),
+                "name" => format!("{:?}", pa.name().map_err(|e| err_kind(&e))),
+                "ext" => format!("{:?}", pa.ext().map_err(|e| err_kind(&e))),
+                "first" => format!("{:?}", pa.first().map_err(|e| err_kind(&e))),
+                "last" => format!("{:?}", pa.last().map_err(|e| err_kind(&e))),
+                "concat" => format!("{:?}", pa.concat(b).map(|x| ps(&x)).map_err(|e| err_kind(&e))),
+                "has" => format!("{}{}{}", pa.has(&pb), pa.has_prefix(&pb), pa.has_suffix(&pb)),
+                "parse_paths" => format!("{:?}", sys::parse_paths(a).map(|v| v.len()).map_err(|e| err_kind(&e))),
+                "str_ext" => format!("{}{}{:?}", a.size(), a.to_bool(), a.trim_suffix(b)),
+                _ => String::new(),
+            };
+            Outcome::Ok(Val::Str(text))
+        },
         Op::Getrids { uid, gid } => {
             let (u, g) = user::getrids(*uid, *gid);
             Outcome::Ok(Val::Pair(u, g))
